@@ -2,6 +2,7 @@ SPECIFICATION Spec
 CONSTANTS MaxLen = 4
           Caps = {1, 2, 3, 8}
           MaxIdle = 1
+          WithInterrupt = FALSE
           FreeAppend = FALSE
           Dev = {"FollowUtf8Split"}
 INVARIANTS TypeOK Emit
